@@ -185,6 +185,7 @@ pub fn subject_module(i: usize, s: &Subj) -> String {
         let restrict = if s.serde_full { "" } else { "            if !matches!(pos, Pos::Top | Pos::VecElem) { return DeOut::Absent; }\n" };
         let _ = writeln!(m, "        fn de(&self, fmt: Fmt, pos: Pos, doc: &[u8]) -> DeOut {{\n{restrict}            de_pos::<T>(fmt, pos, doc, inn)\n        }}");
         let _ = writeln!(m, "        fn de_plain(&self, fmt: Fmt, pos: Pos, doc: &[u8]) -> DeOut {{\n{restrict}            de_pos::<P>(fmt, pos, doc, |p: P| p.0.to_val())\n        }}");
+        let _ = writeln!(m, "        fn de_probe(&self, call: &ProbeCall) -> DeOut {{ de_probe::<T>(call, inn) }}");
     }
     if d.derives(Tr::Serialize) {
         let rt = if d.derives(Tr::Deserialize) { "Some(&|b: &[u8]| match decode::<T>(fmt, b) { Ok(t) => Outcome::Ok(inn(t)), Err(e) => Outcome::ParseErr { display: e } })" } else { "None" };
